@@ -1,6 +1,177 @@
 //! Per-property operations (extended as properties are added).
+use std::collections::HashMap;
+use std::str::FromStr;
+
+use quil_rs::instruction::Instruction;
+use quil_rs::quil::Quil;
+use quil_rs::Program;
 use serde_json::{json, Value};
 
-pub fn run(op: &str, _req: &Value) -> Value {
-    json!({"unknown_op": op})
+fn dbg<T: std::fmt::Debug>(t: &T) -> Value {
+    Value::String(format!("{:?}", t))
+}
+
+fn parse_instructions(text: &str) -> Result<Vec<Instruction>, String> {
+    Program::from_str(text)
+        .map(|p| p.to_instructions())
+        .map_err(|e| format!("{e:?}"))
+}
+
+fn listing(v: &[Instruction]) -> Value {
+    Value::Array(v.iter().map(dbg).collect())
+}
+
+/// A tiny script language over `Program` registers; used by the container / history properties.
+/// Every step is `[op, args...]`; observation steps append to the output list.
+fn script(req: &Value) -> Value {
+    let mut regs: HashMap<String, Program> = HashMap::new();
+    let mut out: Vec<Value> = vec![];
+    let get = |regs: &HashMap<String, Program>, k: &Value| -> Program {
+        regs.get(k.as_str().unwrap()).cloned().unwrap_or_default()
+    };
+    for step in req["script"].as_array().unwrap() {
+        let a = step.as_array().unwrap();
+        let op = a[0].as_str().unwrap();
+        match op {
+            "new" => {
+                regs.insert(a[1].as_str().unwrap().to_string(), Program::new());
+            }
+            "from" => {
+                let mut ins = vec![];
+                for t in a[2].as_array().unwrap() {
+                    match parse_instructions(t.as_str().unwrap()) {
+                        Ok(v) => ins.extend(v),
+                        Err(e) => return json!({"input_error": e}),
+                    }
+                }
+                regs.insert(a[1].as_str().unwrap().to_string(), Program::from_instructions(ins));
+            }
+            "add_instructions" => {
+                let mut p = get(&regs, &a[1]);
+                for t in a[2].as_array().unwrap() {
+                    match parse_instructions(t.as_str().unwrap()) {
+                        Ok(v) => {
+                            for i in v {
+                                p.add_instruction(i)
+                            }
+                        }
+                        Err(e) => return json!({"input_error": e}),
+                    }
+                }
+                regs.insert(a[1].as_str().unwrap().to_string(), p);
+            }
+            "add" => {
+                let r = get(&regs, &a[2]) + get(&regs, &a[3]);
+                regs.insert(a[1].as_str().unwrap().to_string(), r);
+            }
+            "add_assign" => {
+                let mut p = get(&regs, &a[1]);
+                p += get(&regs, &a[2]);
+                regs.insert(a[1].as_str().unwrap().to_string(), p);
+            }
+            "clone" => {
+                let p = get(&regs, &a[2]);
+                regs.insert(a[1].as_str().unwrap().to_string(), p);
+            }
+            "clone_without_body" => {
+                let p = get(&regs, &a[2]).clone_without_body_instructions();
+                regs.insert(a[1].as_str().unwrap().to_string(), p);
+            }
+            "rebuild" => {
+                let p = Program::from_instructions(get(&regs, &a[2]).to_instructions());
+                regs.insert(a[1].as_str().unwrap().to_string(), p);
+            }
+            "expand_calibrations" => match get(&regs, &a[2]).expand_calibrations() {
+                Ok(p) => {
+                    regs.insert(a[1].as_str().unwrap().to_string(), p);
+                    out.push(json!("Ok"));
+                }
+                Err(e) => out.push(json!({"err": format!("{e:?}")})),
+            },
+            "expand_defgate_sequences" => match get(&regs, &a[2]).expand_defgate_sequences(|_| true) {
+                Ok(p) => {
+                    regs.insert(a[1].as_str().unwrap().to_string(), p);
+                    out.push(json!("Ok"));
+                }
+                Err(e) => out.push(json!({"err": format!("{e:?}")})),
+            },
+            "wrap_in_loop" => {
+                // [op, dst, src, iterations]
+                let p = get(&regs, &a[2]);
+                let n = a[3].as_u64().unwrap() as u32;
+                let r = p.wrap_in_loop(
+                    quil_rs::instruction::MemoryReference { name: "loop_ctr".to_string(), index: 0 },
+                    quil_rs::instruction::Target::Fixed("loop_start".to_string()),
+                    n,
+                );
+                regs.insert(a[1].as_str().unwrap().to_string(), r);
+            }
+            "filter_all" => {
+                let p = get(&regs, &a[2]).filter_instructions(|_| true);
+                regs.insert(a[1].as_str().unwrap().to_string(), p);
+            }
+            "resolve_placeholders" => {
+                let mut p = get(&regs, &a[1]);
+                p.resolve_placeholders();
+                regs.insert(a[1].as_str().unwrap().to_string(), p);
+            }
+            // ---- observations
+            "to_instructions" => out.push(listing(&get(&regs, &a[1]).to_instructions())),
+            "into_instructions" => out.push(listing(&get(&regs, &a[1]).into_instructions())),
+            "body" => out.push(Value::Array(get(&regs, &a[1]).body_instructions().map(dbg).collect())),
+            "used_qubits" => {
+                let p = get(&regs, &a[1]);
+                out.push(Value::Array(p.get_used_qubits().iter().map(dbg).collect()))
+            }
+            "eq" => out.push(json!(get(&regs, &a[1]) == get(&regs, &a[2]))),
+            "to_quil" => out.push(match get(&regs, &a[1]).to_quil() {
+                Ok(s) => json!({"ok": s}),
+                Err(e) => json!({"err": format!("{e:?}")}),
+            }),
+            "len" => out.push(json!(get(&regs, &a[1]).len())),
+            "get_qubits" => {
+                let p = get(&regs, &a[1]);
+                let v: Vec<Value> = p
+                    .to_instructions()
+                    .iter()
+                    .map(|i| Value::Array(i.get_qubits().iter().map(dbg).collect()))
+                    .collect();
+                out.push(Value::Array(v))
+            }
+            _ => return json!({"unknown_script_op": op}),
+        }
+    }
+    json!({"out": out})
+}
+
+/// Build the same program `n` times in this process and report the distinct serializations.
+fn determinism(req: &Value) -> Value {
+    let texts: Vec<&str> = req["texts"].as_array().unwrap().iter().map(|t| t.as_str().unwrap()).collect();
+    let n = req["n"].as_u64().unwrap_or(32);
+    let mut seen: Vec<String> = vec![];
+    let mut listings: Vec<Value> = vec![];
+    for _ in 0..n {
+        let mut ins = vec![];
+        for t in &texts {
+            match parse_instructions(t) {
+                Ok(v) => ins.extend(v),
+                Err(e) => return json!({"input_error": e}),
+            }
+        }
+        let p = Program::from_instructions(ins);
+        let s = p.to_quil_or_debug();
+        if !seen.contains(&s) {
+            seen.push(s);
+            listings.push(listing(&p.to_instructions()));
+        }
+    }
+    json!({"distinct": seen, "listings": listings})
+}
+
+pub fn run(op: &str, req: &Value) -> Value {
+    match op {
+        "script" => script(req),
+        "determinism" => determinism(req),
+        _ => json!({"unknown_op": op}),
+    }
 }
